@@ -287,7 +287,9 @@ def watch_equality_law(st_):
     for p, pk in paths:
         for r in (False, True):
             for f, fk in filters:
-                ws.append((ObservedWatch(p, recursive=r, event_filter=f), (pk, r, None if fk is None else frozenset(fk)), (p, r, f)))
+                # follow_symlink is an option of the watch, not part of what makes two watches distinct
+                for fs in ((False, True) if (p, f) in (("/p0", None), ("/p0", [A])) else (False,)):
+                    ws.append((ObservedWatch(p, recursive=r, event_filter=f, follow_symlink=fs), (pk, r, None if fk is None else frozenset(fk)), (p, r, f, fs)))
     for w1, k1, d1 in ws:
         for w2, k2, d2 in ws:
             same = k1 == k2
